@@ -824,12 +824,34 @@ fn c11_file(ctx: &mut Ctx, records: &[Vec<u8>], s_size: usize, threads: usize, m
     }
     let comp = CgrComputer::new("-".into(), "-".into(), s_size);
     for (i, rec) in records.iter().enumerate() {
-        let exp = cgr_row(&comp.verif_vectorise_one(rec).unwrap());
-        if lines[i] != exp {
-            return viol(ctx, "row-order-or-value", records.len(), format!("cgr file {tag} S={s_size} threads={threads} mem={mem}: row {i} is {:?}, expected the row of record {i} {:?}", &lines[i][..lines[i].len().min(60)], &exp[..exp.len().min(60)]), argv);
+        // the property fixes the values of the points, not how a number is spelled: the row is parsed and its
+        // numbers must be exactly the per-record routine's (which the per-record part holds to the model)
+        let exp = comp.verif_vectorise_one(rec).unwrap();
+        let got = parse_tuples(lines[i], 2);
+        let same = matches!(&got, Some(g) if g.len() == exp.len() && g.iter().zip(exp.iter()).all(|(a, b)| a[0].to_bits() == b.0.to_bits() && a[1].to_bits() == b.1.to_bits()));
+        if !same {
+            let exp_text = cgr_row(&exp);
+            return viol(ctx, "row-order-or-value", records.len(), format!("cgr file {tag} S={s_size} threads={threads} mem={mem}: row {i} is {:?}, expected the points of record {i} {:?}", &lines[i][..lines[i].len().min(60)], &exp_text[..exp_text.len().min(60)]), argv);
         }
     }
     ctx.rep.nontrivial += 1;
+}
+
+/// a row of blank-separated tuples "(a,b)" or "(a,b,c)" parsed as numbers; None if it is not of that shape
+fn parse_tuples(line: &str, arity: usize) -> Option<Vec<Vec<f64>>> {
+    if line.is_empty() {
+        return Some(Vec::new());
+    }
+    let mut out = Vec::new();
+    for tok in line.split(' ') {
+        let inner = tok.strip_prefix('(')?.strip_suffix(')')?;
+        let nums: Vec<f64> = inner.split(',').map(|t| t.trim().parse::<f64>().ok()).collect::<Option<Vec<f64>>>()?;
+        if nums.len() != arity {
+            return None;
+        }
+        out.push(nums);
+    }
+    Some(out)
 }
 
 pub fn cgr_record_sets() -> Vec<(&'static str, Vec<Vec<u8>>)> {
@@ -1213,9 +1235,12 @@ fn c12_file(ctx: &mut Ctx, records: &[Vec<u8>], k: usize, s_size: usize, norm: b
     let mut comp = OligoCgrComputer::new("-".into(), "-".into(), k, s_size);
     comp.set_norm(norm);
     for (i, rec) in records.iter().enumerate() {
-        let exp = comp.verif_vectorise_one(rec).unwrap().iter().map(|v| format!("({},{},{})", v.0 .0, v.0 .1, v.1)).collect::<Vec<_>>().join(" ");
-        if lines[i] != exp {
-            return viol(ctx, "row-order-or-value", records.len(), format!("k-mer cgr file {tag} k={k} threads={threads} mem={mem}: row {i} differs from the row of record {i}"), argv);
+        // values, not spellings (see c11_file)
+        let exp = comp.verif_vectorise_one(rec).unwrap();
+        let got = parse_tuples(lines[i], 3);
+        let same = matches!(&got, Some(g) if g.len() == exp.len() && g.iter().zip(exp.iter()).all(|(a, b)| a[0].to_bits() == b.0 .0.to_bits() && a[1].to_bits() == b.0 .1.to_bits() && a[2].to_bits() == b.1.to_bits()));
+        if !same {
+            return viol(ctx, "row-order-or-value", records.len(), format!("k-mer cgr file {tag} k={k} threads={threads} mem={mem}: row {i} ({:?}...) does not hold the triples of record {i}", &lines[i][..lines[i].len().min(60)]), argv);
         }
     }
     ctx.rep.nontrivial += 1;
